@@ -156,8 +156,11 @@ func altShift(c *cx, pick, maxN int) *big.Int {
 	if pick%2 == 0 {
 		return nil
 	}
-	for _, v := range []int64{7, 11, 13} {
-		if s := bi(v); c.validShift(s, maxN) {
+	// an alternative shift must differ from the package default (7 is the default generator of some scalar fields:
+	// there the alternative used to coincide with the default and the shift dimension was vacuous)
+	def := c.dom(1, nil).ref.S
+	for _, v := range []int64{7, 11, 13, 17} {
+		if s := bi(v); c.validShift(s, maxN) && c.F.Red(s).Cmp(def) != 0 {
 			return s
 		}
 	}
